@@ -32,3 +32,31 @@ Lemma ut_model_eq_impl_sweep :
                      | _, _ => false
                      end) (range 256) = true.
 Proof. vm_compute. reflexivity. Qed.
+
+(* ---- profile / level / chroma-info tables of the model vs the implementation ---- *)
+From H264 Require Import Model.Sps Model.SpsDerived Model.ShowSps Gen.ImplLevel.
+
+Lemma prof_model_eq_impl_sweep :
+  forallb (fun b => match lookup b impl_prof with
+                    | Some (back, nm, ci, wrapped) =>
+                        (back =? b) && String.eqb nm (show_profile b) && Bool.eqb ci (has_chroma_info b) && (wrapped =? b)
+                    | None => false
+                    end) (range 256) = true.
+Proof. vm_compute. reflexivity. Qed.
+
+Lemma prof_model_eq_impl b : b < 256 -> lookup b impl_prof = Some (b, show_profile b, has_chroma_info b, b).
+Proof.
+  intros Hb. pose proof (forall_range _ 256 prof_model_eq_impl_sweep b Hb) as H. cbv beta in H.
+  destruct (lookup b impl_prof) as [[[[back nm] ci] w]|]; [|discriminate].
+  repeat (apply andb_prop in H; let H' := fresh "H" in destruct H as [H H']).
+  apply N.eqb_eq in H, H0. apply String.eqb_eq in H2. apply Bool.eqb_prop in H1. subst. reflexivity.
+Qed.
+
+Lemma lvl_model_eq_impl_sweep :
+  forallb (fun f => match lookup f impl_lvl with
+                    | Some row => forallb (fun '(l, back, nm) =>
+                                    (back =? l) && String.eqb (nth (N.to_nat nm) level_names EmptyString) (show_level f l)) row
+                                  && (length row =? 256)%nat
+                    | None => false
+                    end) (range 256) = true.
+Proof. vm_compute. reflexivity. Qed.
